@@ -203,7 +203,34 @@ func build(fs []fieldSpec, msgMode bool, variant int, tagMode bool) (reflect.Val
 }
 
 func evalCase(c *runner.Ctx, fs []fieldSpec, msgMode bool, variant int, tagMode bool) {
+	viaSet := variant == 3 // per-call rules collected with RM.Set, one call with all rules or one call per rule
+	if viaSet {
+		if tagMode {
+			return
+		}
+		variant = 0
+	}
 	p, o, desc := build(fs, msgMode, variant, tagMode)
+	callRM := valid.RM(o.Unscoped)
+	if viaSet {
+		callRM = valid.NewRule()
+		for i := range fs {
+			name := fmt.Sprintf("F%d", i)
+			text, ok := o.Unscoped[name]
+			if !ok {
+				continue
+			}
+			parts := strings.Split(text, ",")
+			if (i+len(parts))%2 == 0 {
+				callRM.Set(name, parts...)
+			} else {
+				for _, part := range parts {
+					callRM.Set(name, part)
+				}
+			}
+		}
+		desc += " (rules collected with RM.Set)"
+	}
 	var err error
 	pan, msg, site := runner.Guard(func() {
 		// two calls the library rejects (nil, typed nil pointer of the same type), each carrying per-call rules for
@@ -217,7 +244,7 @@ func evalCase(c *runner.Ctx, fs []fieldSpec, msgMode bool, variant int, tagMode 
 		if tagMode {
 			err = valid.Struct(p.Interface())
 		} else {
-			err = valid.Struct(p.Interface(), valid.RM(o.Unscoped))
+			err = valid.Struct(p.Interface(), callRM)
 		}
 	})
 	exp := walk.Struct(p.Interface(), o)
@@ -322,7 +349,7 @@ func run(c *runner.Ctx) {
 	for k := range kinds {
 		for _, items := range l3 {
 			for _, v := range kinds[k].vals {
-				for variant := 0; variant < 3; variant++ {
+				for variant := 0; variant < 4; variant++ {
 					if !c.Take() {
 						continue
 					}
@@ -356,6 +383,7 @@ func run(c *runner.Ctx) {
 							mm := (len(it0)+len(it1)+vi0+vi1)%2 == 0
 							evalCase(c, []fieldSpec{{k0, it0, v0}, {k1, it1, v1}}, mm, 0, true)
 							evalCase(c, []fieldSpec{{k0, it0, v0}, {k1, it1, v1}}, !mm, 0, false)
+							evalCase(c, []fieldSpec{{k0, it0, v0}, {k1, it1, v1}}, mm, 3, false)
 							if len(it0)+len(it1) > 0 && (c.Thorough() || len(it0) <= 1) {
 								o0 := kinds[k0].vals[(vi0+1)%len(kinds[k0].vals)]
 								o1 := kinds[k1].vals[(vi1+1)%3]
